@@ -115,7 +115,7 @@ class SymCtx:
         return self.eng.abstract(value, name, same_as)
 
     # obligations
-    def eq(self, label, a, b, expect="unsat", core=True, abstract=False, premises=()):
+    def eq(self, label, a, b, expect="unsat", core=True, abstract=False, premises=(), atol=None):
         fa, fb = flat(a), flat(b)
         if fa is None or fb is None:
             ok = fa is None and fb is None
@@ -254,7 +254,9 @@ class ConcCtx:
     def abstract(self, value, name, same_as=None):
         return value
 
-    def eq(self, label, a, b, expect="unsat", core=True, abstract=False, premises=()):
+    def eq(self, label, a, b, expect="unsat", core=True, abstract=False, premises=(), atol=None):
+        """atol (concrete mode only): absolute tolerance, e.g. a fraction of the parameter uncertainty where the
+        property says 'up to the minimizer tolerance'; the symbolic verdict is always exact equality"""
         fa, fb = flat(a), flat(b)
         if fa is None or fb is None:
             self.records.append(dict(label=label, ok=(fa is None and fb is None), lhs=None, rhs=None, info="None-ness"))
@@ -270,6 +272,8 @@ class ConcCtx:
             x = float(x)
             y = float(y)
             ok, bad = close(x, y)
+            if atol is not None and abs(x - y) <= (atol[i] if isinstance(atol, (list, tuple)) else atol):
+                ok, bad = True, False
             self.records.append(dict(label=lab, ok=ok, bad=bad, lhs=x, rhs=y))
 
     def holds(self, label, cond, expect="unsat", core=True):
